@@ -24,6 +24,7 @@ RULE = (
     "that does not exist). Non-trivial: a metadata file is read, appended to afterwards, and read "
     "again."
 )
+RULE += ' Since rounds 7-8: in-progress files of a host whose clock is ahead, forward-fill visibility after back-dated writes, read_metadata through old and new RF readers, callers that modify results.'
 ASSUMPTIONS = ["atime is not part of the snapshot; mtime_ns, size, names and SHA-256 are", "overlay build of /repo"]
 FLOORS = {"nontrivial": 0.5}
 T0 = 1700000000
